@@ -10,6 +10,7 @@ use std::collections::HashMap;
 use std::fs::File;
 use std::io::BufReader;
 use std::io::Read;
+use std::io::Seek;
 use std::io::Write;
 use std::path::Path;
 
@@ -269,37 +270,60 @@ impl<'a> Reader<'a> {
         Ok(())
     }
 
-    fn read_file(&mut self) -> anyhow::Result<()> {
-        self.read_signature()?;
+    /// Reads one record.  A short read surfaces as ErrorKind::UnexpectedEof.
+    fn read_record(&mut self) -> std::io::Result<()> {
+        let mut len = self.read_u16()?;
+        let mask = 0b1000_0000_0000_0000;
+        if len & mask == 0 {
+            self.read_path(len as usize)
+        } else {
+            len &= !mask;
+            self.read_build(len as usize)
+        }
+    }
+
+    /// Reads all complete records, returning the offset just past the last one.
+    /// Anything after that offset is a partially written record (e.g. from a
+    /// crash mid-write) that the caller must discard before appending.
+    fn read_file(&mut self) -> anyhow::Result<u64> {
+        match self.read_signature() {
+            Ok(()) => {}
+            // A file too short to hold the signature is a torn create; treat as empty.
+            Err(err) if is_unexpected_eof(&err) => return Ok(0),
+            Err(err) => return Err(err),
+        }
         loop {
-            let mut len = match self.read_u16() {
-                Ok(r) => r,
-                Err(err) if err.kind() == std::io::ErrorKind::UnexpectedEof => break,
+            let valid_len = self.r.stream_position()?;
+            match self.read_record() {
+                Ok(()) => {}
+                Err(err) if err.kind() == std::io::ErrorKind::UnexpectedEof => return Ok(valid_len),
                 Err(err) => bail!(err),
-            };
-            let mask = 0b1000_0000_0000_0000;
-            if len & mask == 0 {
-                self.read_path(len as usize)?;
-            } else {
-                len &= !mask;
-                self.read_build(len as usize)?;
             }
         }
-        Ok(())
     }
 
     /// Reads an on-disk database, loading its state into the provided Graph/Hashes.
-    fn read(f: &mut File, graph: &mut Graph, hashes: &mut Hashes) -> anyhow::Result<IdMap> {
+    /// Also returns the length of the valid prefix of the file; see read_file().
+    fn read(
+        f: &mut File,
+        graph: &mut Graph,
+        hashes: &mut Hashes,
+    ) -> anyhow::Result<(IdMap, u64)> {
         let mut r = Reader {
             r: std::io::BufReader::new(f),
             ids: IdMap::default(),
             graph,
             hashes,
         };
-        r.read_file()?;
+        let valid_len = r.read_file()?;
 
-        Ok(r.ids)
+        Ok((r.ids, valid_len))
     }
+}
+
+fn is_unexpected_eof(err: &anyhow::Error) -> bool {
+    err.downcast_ref::<std::io::Error>()
+        .map_or(false, |err| err.kind() == std::io::ErrorKind::UnexpectedEof)
 }
 
 /// Opens or creates an on-disk database, loading its state into the provided Graph.
@@ -310,8 +334,15 @@ pub fn open(path: &Path, graph: &mut Graph, hashes: &mut Hashes) -> anyhow::Resu
         .open(path)
     {
         Ok(mut f) => {
-            let ids = Reader::read(&mut f, graph, hashes)?;
-            Ok(Writer::from_opened(ids, f))
+            let (ids, valid_len) = Reader::read(&mut f, graph, hashes)?;
+            // Drop any partially written trailing record so that appends
+            // continue from the end of the last complete one.
+            f.set_len(valid_len)?;
+            let mut w = Writer::from_opened(ids, f);
+            if valid_len == 0 {
+                w.write_signature()?;
+            }
+            Ok(w)
         }
         Err(err) if err.kind() == std::io::ErrorKind::NotFound => {
             let w = Writer::create(path)?;
